@@ -23,6 +23,7 @@ import zlib
 from framework import fresh_import, REPO, VERIF, LeanLock
 import simgen
 import simcorr
+import looprun
 from indep import rzxrec, snapdec
 
 PROPS = 'SkoolVerif.Props.C20'
@@ -1717,19 +1718,33 @@ def run(chk):
         'the plan: the last instruction of a frame must still read back as itself (process_block re-reads memory[pc] after execution - KNOWN finding '
         'frame-end:last-instruction-rewrites-own-opcode; the recorder never ends a frame on such an instruction) and the byte at address 0 must not be '
         'EI / DD / FD (accept_interrupt(…, prev_pc=0); it is DI in every Spectrum ROM)',
-        'the C handler bodies and exec_frame are tied by differential execution only (per slot and whole frames)',
+        'the frame loops are translated from source on every run: CSimulator_exec_frame (translate/cloop2lean.py, both builds), the Python frame loop of process_block '
+        '(`while fetch_counter > 0:`) and its end-of-frame code (translate/pyloop2lean.py, loop cores); proved equal to the models cFrame / runFrame / boundary '
+        '(c_exec_frame_derived_from_source, python_frame_loop_derived_from_source, python_frame_boundary_derived_from_source) for frames that end without the '
+        '"port readings exhausted" exception; validated each run against the real CSimulator.exec_frame and against the loops\' own statements run on the real Python '
+        'simulators; the block loop of process_block (RZXTracer.next_frame, frame counting, --stop) and RZXTracer remain hand models tied by correspondence',
         'screen drawing, --map/--trace output and unsupported-block warnings are not part of the property',
     ]
     env = Env(chk)
     gen_ok = simgen.regen(chk)
     gen_ok = regen_c20(chk) and gen_ok
+    # the C frame loop (CSimulator_exec_frame) and the C handlers it calls are translated from the tree under test too
+    # (translate/cloop2lean.py, c2lean.py): theorems c_exec_frame_derived_from_source, c_exec_frame_pass
+    loop_ok = looprun.regen_c_side(chk) if gen_ok else False
     ok = False
-    if gen_ok:
+    if gen_ok and loop_ok:
         ok = chk.lake_build([PROPS, 'SkoolVerif.Prelude.SimProto', 'SkoolVerif.Model.RzxInput', 'SkoolVerif.Model.RzxPlay',
-                             'SkoolVerif.Spec.RzxM1', 'SkoolVerif.Gen.SimHandlers', 'SkoolVerif.Gen.CmioHandlers'])
+                             'SkoolVerif.Spec.RzxM1', 'SkoolVerif.Gen.SimHandlers', 'SkoolVerif.Gen.CmioHandlers'] + looprun.LOOP_DRIVER_MODULES)
     chk.audit(PROPS)
     if chk.thorough and ok:
         chk.leanchecker([PROPS])
+    if gen_ok and loop_ok:
+        # both frame loops, translated from source, against the real code (one driver start)
+        batch = []
+        looprun.frame_correspondence(chk, env.CS, env.CC, batch=batch)
+        looprun.py_frame_correspondence(chk, env.simulator.Simulator, env.cmiosimulator.CMIOSimulator, batch=batch)
+        looprun.py_boundary_correspondence(chk, env.simulator.Simulator, env.cmiosimulator.CMIOSimulator, batch=batch)
+        looprun.flush(chk, batch)
     stream_correspondence(chk, env)
     if not crash_canary(chk, env):
         return
